@@ -485,6 +485,15 @@ func runIdentity(variant string) (viol []string, inconclusive string) {
 		case "other-ca-noname":
 			// no server name configured and the server addressed by IP literal: the CA check still applies
 			cc.Transport.TLS.ServerName = ""
+		case "missing-ca":
+			// the configured CA file cannot be read when the client dials: the client must not fall back to a
+			// connection without the identity check (or without TLS)
+			cc.Transport.TLS.ServerName = "frps.example.com"
+			cc.Transport.TLS.TrustedCaFile = rw.TestdataDir + "/no-such-ca.crt"
+		case "missing-cert":
+			cc.Transport.TLS.ServerName = "frps.example.com"
+			cc.Transport.TLS.CertFile = rw.TestdataDir + "/no-such-client.crt"
+			cc.Transport.TLS.KeyFile = rw.TestdataDir + "/client.key"
 		}
 	})
 	if err != nil {
@@ -510,6 +519,9 @@ func runIdentity(variant string) (viol []string, inconclusive string) {
 	}
 	// nothing but TLS handshake records may have left the client
 	cb := rl.clientBytes()
+	if strings.HasPrefix(variant, "missing-") && bytes.Contains(cb, []byte("privilege_key")) {
+		viol = append(viol, fmt.Sprintf("client (%s) whose TLS configuration cannot be built sent its login in clear", variant))
+	}
 	appData := 0
 	defer func() {
 		if appData > 100 {
@@ -550,7 +562,7 @@ func main() {
 	if c == nil {
 		return
 	}
-	c.Rule("complete lattice tls.enable x disableCustomTLSFirstByte x server tls.force x proxy encryption x compression x protocol {tcp, websocket} x tcpMux (128 cells): real frps and frpc through a recording relay, a tcp, an stcp(+visitor) and an http proxy with high-entropy token / secret key / http password / payload markers searched in the relay log in raw, hex, base64 (3 alignments) and JSON forms; every first byte 0..255 against a server forcing TLS / with a trusted CA; client certificate matrix; client-side identity check (right name, wrong name, other CA); non-trivial = distinct cell / first byte")
+	c.Rule("complete lattice tls.enable x disableCustomTLSFirstByte x server tls.force x proxy encryption x compression x protocol {tcp, websocket} x tcpMux (128 cells): real frps and frpc through a recording relay, a tcp, an stcp(+visitor) and an http proxy with high-entropy token / secret key / http password / payload markers searched in the relay log in raw, hex, base64 (3 alignments) and JSON forms; every first byte 0..255 against a server forcing TLS / with a trusted CA; client certificate matrix; client-side identity check (right name, wrong name, other CA, a CA / certificate file that cannot be read at dial time: no login, nothing in clear); non-trivial = distinct cell / first byte")
 	var cells []cell
 	for m := 0; m < 128; m++ {
 		cl := cell{TLS: m&1 != 0, NoFirst: m&2 != 0, Force: m&4 != 0, Enc: m&8 != 0, Comp: m&16 != 0, Mux: m&64 != 0, Proto: "tcp"}
@@ -640,7 +652,7 @@ func main() {
 			c.Violate("firstbyte", "firstbyte:"+x, x, mode)
 		}
 	}
-	for _, variant := range []string{"good", "wrong-name", "other-ca", "other-ca-noname"} {
+	for _, variant := range []string{"good", "wrong-name", "other-ca", "other-ca-noname", "missing-ca", "missing-cert"} {
 		v, inc := runIdentity(variant)
 		c.Count("identity:" + variant)
 		if inc != "" {
